@@ -12,7 +12,7 @@ from ..oracle import xmlread
 TECHNIQUE = 'runtime monitoring: rename-map oracle over create -dr manifests, follow-up command exit codes, multi-generation rename chains'
 LEVEL = "exploration"
 RULE = (
-    "case = single-history tree with pairwise distinct file contents, 1-3 prior generations, then 1-6 simultaneous file renames "
+    "case = single-history tree with pairwise distinct file contents (25 % with one zero-length file), 1-3 prior generations, then 1-6 simultaneous file renames "
     "(in place / move between existing directories / move into a directory created for it) plus 0-3 unrelated new files, sealed "
     "with create -dr using the same or another format set; optional second rename step in a later generation (b->c or back "
     "to a); class = (rename classes, set size, format relation, prior generations, second step)"
